@@ -909,3 +909,19 @@ func vSigVerifies(signatureB64, content string, key *rsa.PrivateKey, hash crypto
 	h.Write([]byte(content))
 	return rsa.VerifyPKCS1v15(&key.PublicKey, hash, h.Sum(nil), sig) == nil
 }
+
+func vB64AlphabetAxiom() {}
+
+// vSignedHash (native): the hash under which the signature verifies over vxLastSignedContent, tried over
+// the hashes goxmldsig supports; the content is supplied by the harness through vSetSignedContent.
+var vxSignedContent string
+
+func vSetSignedContent(s string) { vxSignedContent = s }
+func vSignedHash(signatureB64 string) crypto.Hash {
+	for _, h := range []crypto.Hash{crypto.SHA256, crypto.SHA1, crypto.SHA384, crypto.SHA512} {
+		if vSigVerifies(signatureB64, vxSignedContent, vRSAKey("sp"), h) {
+			return h
+		}
+	}
+	return 0
+}
